@@ -24,13 +24,13 @@ from rustexpr import find_fn, _match_brace, strip_comments
 
 TOK = re.compile(
     r"(?P<poll>\bprefs\s*\.\s*abort\s*\(\s*\))"
-    r"|(?P<check>\.\s*(?:done|gap)\s*\.\s*load\s*\()"
-    r"|(?P<publish>\.\s*done\s*\.\s*store\s*\(\s*true\b)"
+    r"|(?P<check>\b(?:done|gap)\s*\.\s*load\s*\()"
+    r"|(?P<publish>\bdone\s*\.\s*store\s*\(\s*true\b)"
     r"|(?P<call>\b(?P<callee>[A-Za-z_][A-Za-z_0-9]*)\s*\()"
 )
 
 # anything else that touches the shared state must be known to the translator
-OTHER_SHARED = re.compile(r"\.\s*done\s*\.\s*(?!load\b|store\b)[a-z_]+\s*\(|\.\s*done\s*\.\s*store\s*\(\s*(?!true\b)"
+OTHER_SHARED = re.compile(r"\bdone\s*\.\s*(?!load\b|store\b)[a-z_]+\s*\(|\bdone\s*\.\s*store\s*\(\s*(?!true\b)"
                           r"|\brels\s*\.\s*write\s*\(")
 
 
@@ -183,6 +183,20 @@ def run():
     mpqs_mt, mpqs_st = driver_shapes(
         mfn_own, r"if let Some\(pool\) = tpool \{", r"\.into_par_iter\(\)\s*\.for_each\(\s*\|[^|]*\|\s*\{",
         r"\bfor blkno in 0\.\. \{", "process_poly_block", unit, "mpqs()")
+    # ---- ecm: a work unit is one curve (closure `do_curve`), no shared store; both branches map do_curve over the seeds
+    ecm = src("src/ecm.rs")
+    efn = strip_hooks(find_fn(ecm, "ecm", params=r"\s*\("))
+    cb, ce = block_after(efn, r"let do_curve = \|seed: u32\| \{", "ecm(): do_curve closure")
+    ecm_unit = tokens(efn[cb:ce], {}, "ecm::do_curve")
+    rest = efn[:cb] + efn[ce:]
+    if tokens(rest, {}, "ecm() outside do_curve"):
+        raise ExtractError("ecm(): protocol actions outside the do_curve closure")
+    if len(re.findall(r"\bdo_curve\s*\(", rest)) != 2:
+        raise ExtractError("ecm(): do_curve is not called exactly once per branch")
+    if not re.search(r"seeds\s*\.\s*par_iter\(\)\s*\.\s*map\(\s*\|&k\|\s*do_curve\(k\)\s*\)", rest) or \
+       not re.search(r"for s in seeds \{\s*if let Some\(res\) = do_curve\(s\)", rest):
+        raise ExtractError("ecm(): the two loops over the seeds no longer have the known form")
+    ecm_shape = (ecm_unit, [], [])
     body = ("namespace Ymq.Gen.SchedShape\n\n"
             "/-- kinds of protocol actions found in the source -/\n"
             "inductive K | poll | check | add | publish\n  deriving DecidableEq, Repr\n\n"
@@ -192,11 +206,12 @@ def run():
             + lean_shape("siqsSt", siqs_st, "siqs.rs, sequential: the `for a_int in a_ints` loop, around sieve_a") + "\n"
             + lean_shape("mpqsMt", mpqs_mt, "mpqs.rs, thread pool: the into_par_iter closure over block numbers, around process_poly_block") + "\n"
             + lean_shape("mpqsSt", mpqs_st, "mpqs.rs, sequential: the `for blkno in 0..` loop, around process_poly_block") + "\n"
+            + lean_shape("ecmCurve", ecm_shape, "ecm.rs: one curve (closure do_curve), mapped over the seeds by both branches; no shared store") + "\n"
             "def all : List (String × Shape) :=\n"
             "  [(\"siqs-mt\", siqsMt), (\"siqs-st\", siqsSt), (\"mpqs-mt\", mpqsMt), (\"mpqs-st\", mpqsSt)]\n\n"
             "end Ymq.Gen.SchedShape\n")
-    write_gen("SchedShape", body, ["src/siqs.rs", "src/mpqs.rs"])
-    return f"siqs-mt={siqs_mt} siqs-st={siqs_st} mpqs-mt={mpqs_mt} mpqs-st={mpqs_st}"
+    write_gen("SchedShape", body, ["src/siqs.rs", "src/mpqs.rs", "src/ecm.rs"])
+    return f"siqs-mt={siqs_mt} siqs-st={siqs_st} mpqs-mt={mpqs_mt} mpqs-st={mpqs_st} ecm={ecm_shape}"
 
 
 if __name__ == "__main__":
